@@ -21,6 +21,7 @@ RecOK(r) ==
        [] r.fn = "iand" -> r.got = <<r.a.kind, InterSpec(r.a, r.b)[2]>>
        [] r.fn = "isub" -> r.got = <<r.a.kind, KeysOnly(KeySet(r.a) \ KeySet(r.b))>>
        [] r.fn = "ixor" -> r.got = XorSpec(r.a, r.b)
+       [] r.fn = "isdisjoint" -> r.got = DisjointSpec(r.a, r.b)
        [] r.fn = "wunion" -> r.got = WUnionSpec(r.a, r.b, r.w1, r.w2, r.one)
        [] r.fn = "winter" -> r.got = WInterSpec(r.a, r.b, r.w1, r.w2, r.one)
 JOK == RecOK(Recs[i]) \/ (PrintT(<<"BAD", ToJson(i)>>) = FALSE)
